@@ -31,12 +31,14 @@ def params(name, d, seed):
 
 
 def grid_axis(name, seed):
-    """5 coordinates per axis.  doublewell keeps +-0.5 exactly (zero-curvature points)."""
+    """5 coordinates per axis (6 for doublewell).  doublewell keeps +-0.5 exactly (zero-curvature points)."""
     j = 0.0071*(seed + 1)
     if name == "saddle":
         return [-1.25 + j, -0.5 - j, 0.125 + j, 0.5 + 2*j, 1.5 - j]
     if name == "doublewell":
-        return [-1.25 + j, -0.5, 0.125 + j, 0.5, 1.0 + j]
+        # 0.5 + 2^-12: curvature 7e-4 in that coordinate -> the Newton step overshoots by more than 2^6, which
+        # forces the halving line search through its reset (6th point of this axis)
+        return [-1.25 + j, -0.5, 0.125 + j, 0.5, 1.0 + j, 0.5 + 2.**-12]
     if name == "sumcos":
         return [-2.5 + j, -1.2 - j, 0.1 + j, 1.3 + j, 2.7 - j]
     if name == "rosen":
@@ -48,6 +50,8 @@ def start_grid(name, d, seed, npts=5):
     ax = grid_axis(name, seed)
     if npts == 3:
         ax = [ax[0], ax[2], ax[3]]
+    elif d >= 3:
+        ax = ax[:5]
     return [list(p) for p in itertools.product(ax, repeat=d)]
 
 
